@@ -59,11 +59,101 @@ class _TimeShim:
         _Cur.world.clock.sleep(dt)
 
 
+    @staticmethod
+    def time_ns():
+        return int(_Cur.world.clock.now * 1e9)
+
+    monotonic_ns = time_ns
+    perf_counter = time
+
+    def __getattr__(self, name):          # anything else (strftime, struct_time, ...) is clock-free
+        return getattr(_real_time, name)
+
+
+import time as _real_time  # noqa: E402
+
 _shim = _TimeShim()
-_hash_mod.time = _shim
-_pool_mod.time = _shim
-_aws_mod.time = _shim
-_retry_mod.sleep = _shim.sleep
+_CLOCK_FUNCS = {_real_time.time: _shim.time, _real_time.monotonic: _shim.monotonic,
+                _real_time.sleep: _shim.sleep, _real_time.perf_counter: _shim.perf_counter,
+                _real_time.time_ns: _shim.time_ns, _real_time.monotonic_ns: _shim.monotonic_ns}
+
+
+def _install_clock_seam():
+    """Every module of the package under test reads the simulated clock: wherever one of them holds the `time`
+    module or one of its clock functions (however imported), it is replaced by the shim."""
+    for name, mod in sorted(sys.modules.items()):
+        if mod is None or not (name == "pymemcache" or name.startswith("pymemcache.")):
+            continue
+        if name.startswith("pymemcache.test"):
+            continue
+        for attr, val in list(vars(mod).items()):
+            if val is _real_time:
+                setattr(mod, attr, _shim)
+            else:
+                try:
+                    repl = _CLOCK_FUNCS.get(val)
+                except TypeError:
+                    repl = None
+                if repl is not None:
+                    setattr(mod, attr, repl)
+
+
+_install_clock_seam()
+assert _hash_mod.time is _shim and _pool_mod.time is _shim and _aws_mod.time is _shim
+assert _retry_mod.sleep == _shim.sleep
+
+
+# ---------------------------------------------------------------- process-global state of the package
+# One scenario = one process, as far as the package under test can tell: whatever mutable containers its modules
+# and classes hold at import time are put back before every scenario, so that state leaking from one scenario
+# into the next (a class-level dict that should have been per-instance, a module-level cache) cannot make a run
+# depend on which scenarios the worker happened to execute before it.  Within a scenario such state is of
+# course left alone - two clients of one scenario do see each other's leaks.
+import collections as _collections  # noqa: E402
+import copy as _copy  # noqa: E402
+
+_MUTABLE = (dict, list, set, _collections.deque, bytearray)
+
+
+def _package_state_sites():
+    sites = []
+    for name, mod in sorted(sys.modules.items()):
+        if mod is None or not (name == "pymemcache" or name.startswith("pymemcache.")):
+            continue
+        if name.startswith("pymemcache.test"):
+            continue
+        for attr, val in sorted(vars(mod).items()):
+            if attr.startswith("__"):
+                continue
+            if isinstance(val, _MUTABLE):
+                sites.append((mod, attr))
+            elif isinstance(val, type) and getattr(val, "__module__", None) == name:
+                for a2, v2 in sorted(vars(val).items()):
+                    if not a2.startswith("__") and isinstance(v2, _MUTABLE):
+                        sites.append((val, a2))
+    return sites
+
+
+_BASELINE = [(o, a, _copy.deepcopy(vars(o)[a])) for o, a in _package_state_sites()]
+
+
+def restore_package_state():
+    n = 0
+    for o, a, base in _BASELINE:
+        cur = vars(o).get(a)
+        if type(cur) is type(base) and cur == base:
+            continue
+        n += 1
+        fresh = _copy.deepcopy(base)
+        if type(cur) is type(base) and isinstance(cur, (dict, set)):
+            cur.clear()
+            cur.update(fresh)
+        elif type(cur) is type(base) and isinstance(cur, (list, _collections.deque, bytearray)):
+            cur.clear()
+            cur.extend(fresh)
+        else:
+            setattr(o, a, fresh)
+    return n
 
 
 # ---------------------------------------------------------------- serdes
@@ -128,7 +218,7 @@ def build_stack(world, wspec):
         return _hash_mod.HashClient(servers, **kw)
     if stack == "retrying_stub":
         rk = {k: codec.dec(v) for k, v in (wspec.get("retry_kwargs") or {}).items()}
-        stub = ScriptedClient(wspec.get("script") or [])
+        stub = (ScriptedChild if wspec.get("stub_inherits") else ScriptedClient)(wspec.get("script") or [])
         world.stub = stub
         return _retry_mod.RetryingClient(stub, **rk)
     if stack == "retrying":
@@ -326,6 +416,7 @@ def resolve_refs(j, res):
 def execute(scn, hooks=()):
     """Sequential executor."""
     wspec = scn["world"]
+    restore_package_state()
     world = World(wspec)
     _Cur.world = world
     _userserde._Cur.world = world
@@ -341,6 +432,8 @@ def execute(scn, hooks=()):
 
         def _build():
             res.client = build_stack(world, wspec)
+            # other client objects living in the same process (steps address them with "by": index)
+            res.bystanders = [build_stack(world, b) for b in wspec.get("bystanders") or ()]
             return None
 
         rec = run_call(world, res, -1, _build, "__init__", init.get("faults"), init.get("net"), hooks)
@@ -352,7 +445,8 @@ def execute(scn, hooks=()):
         for i, st in enumerate(scn["steps"]):
             t = st["t"]
             if t == "call":
-                target = resolve_target(client, st.get("on"))
+                root = client if st.get("by") is None else res.bystanders[st["by"]]
+                target = resolve_target(root, st.get("on"))
                 meth = st["m"]
                 args = [codec.dec(resolve_refs(a, res)) for a in st.get("a", ())]
                 kwargs = {k: codec.dec(resolve_refs(v, res)) for k, v in (st.get("k") or {}).items()}
@@ -380,6 +474,14 @@ def execute(scn, hooks=()):
             elif t == "wipe":
                 for n in world.nodes.values():     # every server restarts empty (peer-side event)
                     n.store.clear()
+            elif t == "recache":
+                # the application re-orders / replaces FallbackClient's public `caches` list at run time
+                orig = res.extra.setdefault("orig_caches", list(client.caches))
+                new = [orig[j] for j in st["order"]]
+                if st.get("how") == "inplace":
+                    client.caches[:] = new
+                else:
+                    client.caches = new
             elif t == "cluster":
                 world.nodes[st["node"]].cluster = st["cluster"]
             elif t == "resolver":
@@ -415,6 +517,11 @@ def _finish(res, scn):
         h.update(repr([(c[0], c[1], c[2]) for c in n.log]).encode())
     res.digest = h.hexdigest()
     _Cur.world = w
+
+
+class ScriptedChild(ScriptedClient):
+    """The same stub one class further down: every method the wrapper retries is an *inherited* one (as for a
+    user's Client subclass, or AWSElastiCacheHashClient whose commands live on HashClient)."""
 
 
 # ---------------------------------------------------------------- reachability
